@@ -57,7 +57,7 @@ func Probe(ctx context.Context) error {
 	log.Println("PROBE-LOG")
 	fmt.Fprintln(os.Stderr, "PROBE-ERR")
 	b, _ := json.Marshal(map[string]interface{}{
-		"origin": origin, "cwd": cwd, "env": env,
+		"origin": origin, "cwd": cwd, "env": env, "built_os": builtOS(), "built_arch": builtArch(),
 		"verbose": mg.Verbose(), "debug": mg.Debug(), "gocmd": base64.StdEncoding.EncodeToString([]byte(mg.GoCmd())),
 		"stdin_len": len(data), "stdin_sha": hex.EncodeToString(sum[:]), "has_deadline": has, "remaining_ns": rem,
 	})
@@ -110,7 +110,8 @@ T_SPELL = {90 * 10**9: ["90s", "1m30s", "90000ms"], 3600 * 10**9: ["1h", "3600s"
 ENV_BOOL_POOL = [None, None, None, None, b"1", b"1", b"1", b"0", b"0", b"true", b"false", b"T", b"garbage", b"", b"TRUE", b"yes", b" 1", b"tRuE", b"F"]
 ENV_T_POOL = [None, None, None, b"90s", b"1m30s", b"1h0m0s", b"100h", b"garbage", b"", b"90", b"0s"]
 EXTRA_POOL = [(b"FOO", b"bar"), (b"EMPTY", b""), (b"EQ", b"a=b=c"), (b"SP", b"x y"), (b"GOOS", b"plan9"), (b"GOARCH", b"mips"),
-              (b"GOOS", b"windows"), (b"GOARCH", b"wasm"), (b"UNI", "héllo→世界".encode()), (b"NL", b"line1\nline2"),
+              (b"GOOS", b"windows"), (b"GOARCH", b"wasm"), (b"GOOS", b"@HOSTOS@"), (b"GOARCH", b"@HOSTARCH@"),
+              (b"GOOS", b"notanos"), (b"GOARCH", b"bogus"), (b"GOOS", b""), (b"GOARCH", b""), (b"GOARCH", b"arm64"), (b"UNI", "héllo→世界".encode()), (b"NL", b"line1\nline2"),
               (b"TAB", b"a\tb "), (b"lower_case", b"Mixed"), (b"a.b-c", b"dots"), (b"BYTES", b"\xff\xfe\x80"), (b"QUOTE", b"\"'\\$HOME`x`"),
               (b"LONG", b"0123456789abcdef" * 20), (b"MAGEFILE_FOO", b"zzz"), (b"MAGEFILE_IGNOREDEFAULT", b"1"),
               (b"MAGEFILE_TARGET_COLOR", b"Red"), (b"MAGEFILE_HASHFAST", b"1"), (b"MAGEFILEX", b"no underscore"), (b"EQ2", b"=lead")]
@@ -125,14 +126,42 @@ def unhx(s):
 
 
 # ---------------------------------------------------------------- projects
+HOST = [None, None]    # GOHOSTOS, GOHOSTARCH of the go tool (the platform mage itself runs on)
+
+
+def platform_files(i):
+    """Two pairs of magefiles that provide builtOS() / builtArch() with different bodies: one member of each
+    pair is constrained to the host platform, the other to everything else - as a //go:build constraint or as
+    a file name suffix.  Which member is compiled shows which platform the magefile was built for."""
+    hos, harch = HOST
+    files = {}
+    def helper(fn, val):
+        return "\npackage main\n\nfunc %s() string { return \"%s\" }\n" % (fn, val)
+    if i % 2 == 0:
+        files["plat_os_here.go"] = "//go:build mage && %s\n" % hos + helper("builtOS", "host")
+    else:
+        files["plat_%s.go" % hos] = "//go:build mage\n" + helper("builtOS", "host")
+    files["plat_os_other.go"] = "//go:build mage && !%s\n" % hos + helper("builtOS", "other")
+    if (i // 2) % 2 == 0:
+        files["plat_arch_here.go"] = "//go:build mage && %s\n" % harch + helper("builtArch", "host")
+    else:
+        files["platarch_%s.go" % harch] = "//go:build mage\n" + helper("builtArch", "host")
+    files["plat_arch_other.go"] = "//go:build mage && !%s\n" % harch + helper("builtArch", "other")
+    return files
+
+
 class Proj:
     def __init__(self, m, ctx, i, layout):
         files = {}
+        plat = platform_files(i)
         if layout in ("plain", "both"):
             files["magefile.go"] = MAGEFILE.replace("@ORIGIN@", "top")
+            files.update(plat)
         if layout in ("mfdir", "both"):
             files["magefiles/magefile.go"] = MAGEFILE.replace("@ORIGIN@", "mfdir")
+            files.update({"magefiles/" + k: v for k, v in plat.items()})
         self.layout = layout
+        self.plat = sorted(plat)
         self.d = os.path.realpath(m.project(files, name="c11_%d" % i, probe=False))
         self.parent = os.path.dirname(self.d)
         self.work = os.path.join(self.d, "work")
@@ -339,7 +368,7 @@ def observe(r, stdin_sent):
             kv = base64.b64decode(e)
             k, _, v = kv.partition(b"=")
             env[k] = v
-        o.update(mode="run", env=env, origin=js["origin"], cwd=os.path.realpath(js["cwd"]), verbose=js["verbose"], debug=js["debug"],
+        o.update(mode="run", env=env, origin=js["origin"], built_os=js.get("built_os"), built_arch=js.get("built_arch"), cwd=os.path.realpath(js["cwd"]), verbose=js["verbose"], debug=js["debug"],
                  gocmd=base64.b64decode(js["gocmd"]), stdout_on=where,
                  stderr_on="stderr" if re.search(rb"^PROBE-ERR\r?$", err, re.M) else ("stdout" if re.search(rb"^PROBE-ERR\r?$", out, re.M) else None),
                  verbose_log=bool(re.search(rb"^PROBE-LOG\r?$", err + b"\n" + out, re.M)),
@@ -366,7 +395,8 @@ GOWRAP = [None]     # path of the alternative go command of this run (a configur
 
 
 def cfg_env(cfg):
-    return {unhx(k): unhx(v).replace(b"@GOWRAP@", GOWRAP[0].encode()) for k, v in cfg["env"]}
+    return {unhx(k): unhx(v).replace(b"@GOWRAP@", GOWRAP[0].encode()).replace(b"@HOSTOS@", HOST[0].encode()).replace(b"@HOSTARCH@", HOST[1].encode())
+            for k, v in cfg["env"]}
 
 
 def resolved(cfg):
@@ -542,6 +572,10 @@ def oracle(cfg, proj, res, conv):
             bad.append(("accessor-debug", tag + "mg.Debug()=%r, effective %r" % (o["debug"], e_debug)))
         if o["gocmd"] != e_gocmd:
             bad.append(("accessor-gocmd", tag + "mg.GoCmd()=%r, effective %r" % (o["gocmd"], e_gocmd)))
+        # GOOS / GOARCH of the caller never influence how the magefile is built: always for the platform mage runs on
+        if o["built_os"] != "host" or o["built_arch"] != "host":
+            bad.append(("build-platform", tag + "caller's GOOS=%r GOARCH=%r: the magefile was built from the %s-OS / %s-architecture member of the platform-constrained pairs (host %s/%s)" % (
+                r["env"].get(b"GOOS"), r["env"].get(b"GOARCH"), o["built_os"], o["built_arch"], HOST[0], HOST[1])))
         # the environment: unmodified apart from MAGEFILE_* variables
         given = r["env"]
         for k in sorted(set(given) | set(o["env"])):
@@ -710,6 +744,7 @@ def run(ctx):
     ctx.trusted_base += [
         "checks/c11.py (project generator, probe target, runner, Coq printer, oracle) + lib/projlib.py (project layout, mage build)",
         "harness/c11conv: strconv.ParseBool / time.ParseDuration / Duration.String of the Go standard library feed the model's parameters",
+        "build platform (GOOS/GOARCH of the caller never select the magefiles): theorem C11_build_isolated over C10's Model/Constraints.v; in this check observation + oracle only (platform-constrained magefile pairs in every project), Model/Flags.v has no build component",
         "Go's flag package (spelling of options -> values), os/exec + the kernel (environment block, chdir, pipes), path resolution by os.path.realpath",
         "PARTIAL: byte-exact transport of stdin/stdout/stderr is not modelled (only which stream is wired to which); it is carried by the Echo / stdin-digest runs of this check only",
     ]
@@ -721,6 +756,7 @@ def run(ctx):
         f.write("#!/bin/sh\nexec go \"$@\"\n")
     os.chmod(gowrap, 0o755)
     GOWRAP[0] = gowrap
+    HOST[0], HOST[1] = sh(["go", "env", "GOHOSTOS", "GOHOSTARCH"], env=goenv(), check=True)[1].split()
     gowrap = "@GOWRAP@"
     gocache = goenv().get("GOCACHE") or sh(["go", "env", "GOCACHE"], env=goenv())[1].strip()
     # configurations
@@ -774,7 +810,7 @@ def run(ctx):
     # oracle + Coq cases
     items, item_cfg = [], []
     dist = {"routes": {}, "modes": {}, "clauses": {}, "v_flag": {}, "debug_flag": {}, "MAGEFILE_VERBOSE": {}, "MAGEFILE_DEBUG": {}, "gocmd": {},
-            "timeout": {}, "d": {}, "w": {}, "layout": {}, "stdin": {}, "extras": {}, "echo": {}}
+            "caller_GOOS_GOARCH": {}, "timeout": {}, "d": {}, "w": {}, "layout": {}, "stdin": {}, "extras": {}, "echo": {}}
 
     def bump(d, k):
         dist[d][str(k)] = dist[d].get(str(k), 0) + 1
@@ -805,6 +841,7 @@ def run(ctx):
         for k in own:
             if not k.startswith(b"MAGEFILE_VERBOSE") and k not in SIX:
                 bump("extras", k.decode("latin-1"))
+        bump("caller_GOOS_GOARCH", "%s/%s" % (own.get(b"GOOS", b"<unset>").decode(), own.get(b"GOARCH", b"<unset>").decode()))
         for r in res["runs"]:
             nruns += 1
             bump("routes", r["route"])
@@ -839,6 +876,8 @@ def run(ctx):
                    "non-trivial = at least one option, variable or directory given")
     cov["configurations"] = len(cfgs)
     cov["projects"] = {l: layouts.count(l) for l in set(layouts)}
+    cov["platform_constrained_magefiles"] = {"c11_%d" % i: p.plat for i, p in enumerate(projs)}
+    cov["host"] = "%s/%s" % (HOST[0], HOST[1])
     cov["distribution"] = dist
     cov["model_cases"] = len(items)
     cov["model_mismatches"] = len(mism)
